@@ -2,7 +2,10 @@
 and PriQueue.tla (binary heap as the code keeps it, related to the ideal order) model-checked
 exhaustively with non-vacuity witnesses; plans from both specs and seeded boundary-biased histories
 are executed call by call on the six real types; every reply (and Len / IsClosed / IsCleared where
-the type has them) is validated by Queue_Trace / PriQueue_Trace."""
+the type has them) is validated by Queue_Trace / PriQueue_Trace.  Overlapping calls: race rounds on
+fresh queues (control calls x adds; sleeping consumers, adds racing other consumers' Pops; k sleepers fed
+by m adds) run on real goroutines released together; QueueWake_Trace must find an order of the calls that
+explains every reply - also an error reply of a blocked Pop - and the final drain."""
 
 
 def run(ctx):
@@ -33,13 +36,14 @@ def run(ctx):
     rj = ctx.validate(fam, "Queue_Trace", "Queue_Trace.cfg", lst, label="list-queues", chunk=40000)
     rj += ctx.validate(fam, "PriQueue_Trace", "PriQueue_Trace.cfg", pri, label="priq", chunk=40000)
     # 5. overlapping calls must still be explained by SOME order of them: {close | try-close | try-clear}
-    #    racing 1-3 adds on empty / one-item queues (the C13 executor: calls released together by a spin
+    #    racing 1-3 adds on empty / one-item queues; 1-2 consumers asleep in Pop, then adds racing the Pops
+    #    of other consumers; k sleepers and m adds issued together (the C13 executor: calls released together by a spin
     #    barrier, global quiescence, then a sequential observation of contents and flags), validated by
     #    QueueWake_Trace, which compares every reply with the order TLC chooses
     b13 = ctx.go_build("c13")
     ctx.harness(b13, ["-out", ctx.path("races.ndjson"), "-pout", ctx.path("x1.ndjson"),
                       "-stress", ctx.path("x2.ndjson"), "-pstress", ctx.path("x3.ndjson"), "-seed", ctx.seed,
-                      "-rand", 0, "-prand", 0, "-race", ctx.q(700, 4000), "-rounds", "ctl,ctl,take,feed"],
+                      "-rand", 0, "-prand", 0, "-race", ctx.q(640, 4000), "-rounds", "ctl,ctl,take,feed"],
                 traces=[ctx.path("races.ndjson")])
     races = ctx.load_traces(ctx.path("races.ndjson"))
     rj += ctx.validate(fam, "QueueWake_Trace", "QueueWake_Trace.cfg", races, label="races", chunk=40000)
@@ -65,7 +69,9 @@ def run(ctx):
         "on a closed lane that also holds its capacity either refusal (closed / full) is accepted; "
         "TryClose on a closed non-empty queue may answer either way (state unchanged)",
         "race rounds (step 5) are executed by the C13 harness and judged by QueueWake_Trace: the calls of a "
-        "round are applied in any order, every reply and the final drain / accessors must fit that order",
+        "round are applied in any order with wake-ups in between, every reply (a blocked Pop's error reply is "
+        "logged as reply 'err', which no action of the spec has) and the final drain / accessors must fit it; "
+        "kinds of rounds: ctl (x2), take, feed - see cmd/c13 raceCtl / raceParked",
         "q.Q / priq expose no IsClosed: their state is bound through replies and the final drain only",
     ]
     return ctx.finish(
